@@ -194,7 +194,7 @@ def fixture_local_consistency(run):
     verdicts = evalrec.validate(run, events, name='fixtures')
     run.notes['fixture_workbooks'] = len(files)
     run.notes['fixture_local_consistency'] = {'events': len(events), 'verdicts': dict(verdicts), 'skipped': skipped}
-    if verdicts.get('ok', 0) < 200:
+    if sum(n for k, n in verdicts.items() if k != 'open') < 200:
         raise xl.MachineryError(f'local consistency of the fixture workbooks is vacuous: {dict(verdicts)}')
 
 
@@ -240,7 +240,7 @@ def run(run):
     # ranges, names, the same formula text on several sheets), every evaluation judged by TLC with its whole closure
     from checks import wbdrive
     v = wbdrive.run_driver(run, 600 if run.tier == 'quick' else 30000, mix='c03')
-    if v.get('ok', 0) < 1500:
+    if sum(n for k, n in v.items() if k != 'open') < 1500:
         raise xl.MachineryError(f'random workbook driver is vacuous: {dict(v)}')
     run.rule = ('cases = done-states of MC_C03: every target cell x $ spelling x qualification from a probe on every sheet; every '
                 'rectangle x SUM/COUNTA x sheets, dense and with every sparse pattern of a 2x2 sub-block; cross-sheet chains; strips with '
